@@ -9,9 +9,12 @@ CLAIMS = {
                 "masked and component-alpha) is proved against a per-channel specification written from the Render/PDF equations: "
                 "loop-free for every (src,mask,dest) pixel value in 2^96, and as an enforced function contract with loop invariants "
                 "for every scanline width up to 2^20 with frame conditions. The rounding rule itself (round-to-nearest of ab/255, "
-                "saturating sums) is discharged as lemmas. Tests sample pixels; this quantifies over all of them.",
+                "saturating sums) is discharged as lemmas. general_composite_rect itself (pipeline choice narrow/float, the three aligned disjoint "
+                "scanline buffers, per-row fetch/fetch/fetch/combine/write-back protocol, skip on allocation failure) is checked against recording "
+                "contract stubs of the iterators and combiners. Tests sample pixels; this quantifies over all of them.",
         "note": "Under contract: the combiners and their macros. Not under contract: fetch/store iterators of arbitrary formats (see C10), "
-                "general_composite_rect glue, pixman_image_composite32 as a whole, float combiners (real-valued accuracy is not decidable "
+                "pixman_image_composite32 as a whole (its pre-lookup code and box loop: C03), general_composite_rect for more than 2 rows "
+                "(row loop unrolled: bounded), float combiners (real-valued accuracy is not decidable "
                 "with CBMC: not claimed). PDF blend modes assume premultiplied inputs (channel <= alpha). Width <= 2^20.",
     },
 }
@@ -57,7 +60,10 @@ CLAIMS.update({
         "text": "Ownership/frame premise of race freedom only: the set of objects with static storage duration that are neither thread-local nor "
                 "const, over all 33 library translation units as compiled from the current tree, and the functions that assign them, equals a "
                 "reviewed list whose writers run only from the library constructor (plus an error-path counter and a set-up API); the "
-                "fast-path cache carries the thread_local flag. A new shared writable object, a new writer, or a lost TLS flag fails a named obligation.",
+                "fast-path cache carries the thread_local flag. A new shared writable object, a new writer, or a lost TLS flag fails a named obligation. "
+                "Plus two sequential frame contracts behind 'sources shared read-only after their first use': _pixman_image_validate leaves a "
+                "clean image untouched and every image clean (C14's validate.* jobs), and computing the composite region writes only the "
+                "caller's region, never an image's clip region (multi-rectangle branch, contract stubs for translate/intersect).",
         "note": "Sequential contracts cannot decide schedules: determinism under interleaving is NOT decided. Writes through pointers are not tracked. "
                 "The allow-list in props/C16.py is trusted.",
         "technique": "contract-style frame fact read off the goto-cc symbol table and goto functions (no schedule exploration)",
@@ -98,16 +104,17 @@ CLAIMS.update({
     },
     "C15": {
         "text": "Allocation failure is an explicit 32-bit input (bit k fails the k-th allocation of the call; cbmc --no-malloc-may-fail, "
-                "--memory-leak-check): region copy/init_rects leave the designated broken region, return FALSE and leak nothing; a broken "
+                "--memory-leak-check): pixman_rect_alloc (create / grow: failure releases what the region owned), region copy/init_rects leave the designated broken region, return FALSE and leak nothing; a broken "
                 "operand propagates through union/intersect/inverse/subtract/copy/union_rect and fini accepts it; plus every image-setter, "
                 "glyph-cache and filter job of C20/C14/C17/C18 that runs under a symbolic failure mask.",
-        "note": "Only the functions named in the evidence are checked under failure; pixman_op/validate bail paths and the silent-skip sites "
-                "(general_composite_rect buffer, glyph mask, trapezoid temporary image) are NOT covered. Known finding: subtract with a broken "
+        "note": "Only the functions named in the evidence are checked under failure; general_composite_rect's scanline buffer (skip, nothing fetched or stored, no leak) is covered by C01 glue.rect; the glyph mask "
+                "and trapezoid temporary image by C17/C12 jobs run here; other silent-skip sites are NOT covered. Known finding: subtract with a broken "
                 "minuend returns TRUE.",
     },
     "C19": {
         "text": "fill: pixman_fill1/8/16/32 and sse2_fill set exactly the rectangle (ghost slot anywhere in the stride incl. padding and "
-                "neighbouring bits), unsupported depth => FALSE and nothing written (proof); blt/fill delegation down the implementation "
+                "neighbouring bits; a second set of jobs with the heap block exactly the described buffer so that even a same-value access "
+                "outside it fails), unsupported depth => FALSE and nothing written (proof); blt/fill delegation down the implementation "
                 "chain; color_to_pixel == store of the colour for the 12 accepted formats and FALSE otherwise (proof, all colours); "
                 "fill_boxes/fill_rectangles: operator reduction, route selection, and the rectangles handed to pixman_fill are exactly "
                 "boxes ∩ clip ∩ image bounds. Three defects found here were repaired by fix: commits (no clipping to the image, direct "
@@ -157,8 +164,12 @@ CLAIMS.update({
                 "combination with single-rectangle clips: TRUE => ghost point in region <=> in request, destination bounds, destination clip, "
                 "alpha-map box, enabled source and mask clips (translated); FALSE <=> that set is empty. The per-box dispatch loop of "
                 "pixman_image_composite32 hands each routine exactly the box with correctly translated source/mask origins; the pixbuf "
-                "special case, IS_OPAQUE promotion and mask elision conditions are proved on the pre-lookup code.",
-        "note": "Coordinates within +-2^29; multi-rectangle clips and alpha-map clip regions are out of scope (pixman_op asserted unreachable); "
+                "special case, IS_OPAQUE promotion and mask elision conditions are proved on the pre-lookup code. Clip regions carried by "
+                "the alpha map of the source / mask (positioned by the owner's alpha origin), and the multi-rectangle branch of "
+                "clip_general_image as a call protocol over contract stubs of translate/intersect (every enabled clip intersected once in its "
+                "own coordinate system, region back in destination space). The trapezoid row clamps (C12 trap.*) are run here too.",
+        "note": "Coordinates within +-2^29; multi-rectangle clips only through the call protocol (what translate/intersect compute is C05/C07; pixman_op asserted unreachable "
+                "elsewhere); the clip of a DESTINATION alpha map is out of scope (not in the statement); alpha-map clip jobs within +-2^27; "
                 "that each routine writes only inside its box is covered only for routines under contract in C01/C02/C10/C19. "
                 "Known finding: pixbuf path ignores differing rowstride/size. One defect (zero-size alpha map) repaired via the "
                 "intersect_rect fix: commit.",
@@ -167,10 +178,14 @@ CLAIMS.update({
         "text": "Memory-safety obligations (bounds, pointer) are on in every job of every property. C04-specific: analyze_extent / "
                 "compute_transformed_extents: COVER_CLIP_NEAREST/BILINEAR promise the sampled taps of the four transformed corners inside the "
                 "image for every matrix (transform stub with ghost results) and the 16.16 fit of the expanded extents; identity case per "
-                "ghost pixel; pixman_malloc_ab_plus_c and the overflow predicates against 64/128-bit arithmetic.",
+                "ghost pixel; pixman_malloc_ab_plus_c and the overflow predicates against 64/128-bit arithmetic. The macro-generated scaled NEAREST / "
+                "BILINEAR main loops of pixman-inlines.h (real macros instantiated with a contract stub as scanline function; COVER, NONE, "
+                "PAD, NORMAL): every address a scanline function is told to read lies in the source row or the loop's own pad buffers, the "
+                "destination span inside the box. Borrowed: trapezoid row clamps (C12 trap.*), fast-path separable-convolution bounds (C08).",
         "note": "Affine convexity (corners inside => every pixel centre inside) is not machine-checked; create_bits stride arithmetic and "
-                "_pixman_multiply_overflows_size are unverified (64-bit division does not finish); general_composite_rect buffer carving, "
-                "pixman_malloc_ab/abc only in the thorough tier (10-15 min each).",
+                "_pixman_multiply_overflows_size are unverified (64-bit division does not finish); pixman_malloc_ab/abc only in the thorough tier (10-15 min each); "
+                "scaled main loops: one x scale per job, height <= 2, no mask variants, the real scanline functions against the stub "
+                "contract only where C02's sscl.* jobs exist (bounded).",
     },
     "C08": {
         "text": "Sampling arithmetic written from rounding.txt: repeat() for NONE/PAD (all inputs) and NORMAL range+termination (loop "
@@ -179,11 +194,12 @@ CLAIMS.update({
                 "signed projective quotient; wide fetchers never skip a pixel with a non-zero mask; the specialised C fast-path fetchers "
                 "(nearest/bilinear/separable-convolution affine for every repeat mode x format instance and their fast_iters[] table "
                 "bindings, r5g6b5 fetch/write-back, bilinear cover iterator) against the same reference on a symbolic 4x3 source; "
-                "pad_repeat_get_scanline_bounds; transform-class flags only for matrices of that class. Defects found here were repaired "
+                "pad_repeat_get_scanline_bounds; the scaled NEAREST / BILINEAR main-loop macros (a ghost pixel of the box is composited exactly "
+                "once from the documented sample of the repeated image, weights included); transform-class flags only for matrices of that class. Defects found here were repaired "
                 "by fix: commits (unsigned convolution totals, unsigned projective division, wide mask test, two signed-shift UBs).",
         "note": "Bounded: NORMAL congruence |c| <= 4 size, REFLECT/MOD per fixed size, bilinear blend per fixed weight pair, 1x1 kernels only, "
                 "scanline width <= 3, projective quotient at reduced operand width. repeat() and bilinear_interpolation are uninterpreted "
-                "stand-ins inside the fetch jobs. Scaled fast paths, SSE2/SSSE3 fetchers, float fetchers: not covered. Known finding: left "
+                "stand-ins inside the fetch jobs. Scaled main loops: one x scale per job (bounded), scanline functions as contract stubs. SSSE3 fetchers, float fetchers: not covered. Known finding: left "
                 "shift of a negative value in the separable-convolution phase rounding.",
     },
     "C12": {
@@ -192,7 +208,8 @@ CLAIMS.update({
                 "[lx,rx)) for every edge position, neighbours and padding unchanged; row-level tiling lemma; edge stepping invariants; "
                 "pixman_rasterize_trapezoid / pixman_add_traps row range, clamps and walker positions with the rasteriser replaced by a "
                 "recording stub.",
-        "note": "Row jobs bounded in image width (96/8/8 pixels) and one sample row; a8 deferred fill only at the single-row flush; edge "
+        "note": "Row jobs bounded in image width (96/8/8 pixels) and one sample row; the a8 deferred long-span fill across sample rows by 13 "
+                "scenario jobs (pixel indices of the span ends fixed per job, sub-pixel parts symbolic; bounded); edge "
                 "conservation at reduced operand width; whole-call additivity and offset commutation are derived, not checked. The x grid "
                 "phase is the one the code implements (X_FRAC_FIRST - 2e). 7 genuine defects at extreme coordinates / in pixman_edge_step "
                 "are known findings.",
